@@ -71,7 +71,7 @@ def run(ctx):
     jobs = []
     for idx, case in enumerate(cases):
         for rk in (ROTS if not quick else [ROTS[idx % 4], "haar"]):
-            jobs.append({"case": case, "variant": {"rot": rk}, "seed": ctx.seed})
+            jobs.append({"case": case, "variant": {"rot": rk, "unique": bool((idx + len(rk)) % 2)}, "seed": ctx.seed})
         if case["alg"] == "row" and len(case["sh"]) == 2 and case["sh"][0] == case["sh"][1]:
             jobs.append({"case": case, "variant": {"rot": "haar", "method": "mf"}, "seed": ctx.seed})
     results = core.pmap(eng.run_variant, jobs, chunksize=8)
